@@ -1,9 +1,12 @@
-(* Proof obligations tying the C12 model to the definition regenerated from /repo's source on every run:
-   pgpy/packet/fields.py String2Key.count getter -> Gen/Gen_ptypes.v gen_s2k_count.
-   (The arithmetic of derive_key itself is not translated; its source text is pinned by tools/harness/c12.py.) *)
+(* Proof obligations tying the C12 model to the definitions regenerated from /repo's source on every run:
+   pgpy/packet/fields.py String2Key.count getter              -> Gen/Gen_ptypes.v gen_s2k_count,
+   the straight-line arithmetic of String2Key.derive_key
+   (count, hcount, hleft; the shape of the hashdata expression) -> Gen/Gen_ptypes.v gen_s2k_arith.
+   (The remaining statements of derive_key -- ctx, the hashing loop, the truncation -- are tied by the pinned
+   source text in tools/harness/c12.py and the correspondence run.) *)
 From Coq Require Import ZArith List Bool Lia.
 Import ListNotations.
-Require Import PV.Lib.Bytes PV.Model.Wire PV.Spec.Rfc4880_wire PV.Gen.Gen_ptypes.
+Require Import PV.Lib.Bytes PV.Model.Wire PV.Model.S2K PV.Spec.Rfc4880_wire PV.Gen.Gen_ptypes.
 Open Scope Z_scope.
 
 Lemma refine_s2k_count_model c : gen_s2k_count c = s2k_count c.
@@ -22,3 +25,14 @@ Qed.
 (* smallest and largest count: 1024 and 65011712 octets *)
 Lemma refine_s2k_count_range : gen_s2k_count 0 = 1024 /\ gen_s2k_count 255 = 65011712.
 Proof. split; reflexivity. Qed.
+
+(* count / hcount / hleft of the model's plan are the translated arithmetic applied to
+   (specifier, decoded count, len(hsalt + hpass)) -- for every input *)
+Lemma refine_s2k_arith hlen spec halg keylen salt c pass :
+  let p := derive_plan hlen spec halg keylen salt c pass in
+  gen_s2k_arith spec (gen_s2k_count c) (Z.of_nat (length (p_sp p))) = (p_count p, p_hcount p, p_hleft p).
+Proof.
+  unfold gen_s2k_arith, derive_plan. cbn [p_sp p_count p_hcount p_hleft]. cbv zeta.
+  change (gen_s2k_count c) with (s2k_count c).
+  match goal with |- context [if ?b then s2k_count c else _] => destruct b end; reflexivity.
+Qed.
